@@ -482,3 +482,47 @@ func (p *Prog) FindLifted(fn *ssa.Function, sel Sel) []Lifted {
 	walk(fn, nil, liftDepth, map[*ssa.Function]bool{fn: true})
 	return out
 }
+
+// OwnedBy: fn is one of the owner functions, a closure of one, or an
+// unexported repo helper that is only ever called statically (never used as a
+// value, not reachable through an interface) and all of whose callers are
+// owned in the same sense (to the lifting depth). It returns the owner the
+// function acts for. Who-may-do-X rules use it so that moving an owner's
+// statements into a private helper does not change the verdict, while a
+// second, foreign caller of that helper does.
+func (p *Prog) OwnedBy(fn *ssa.Function, isOwner func(name string) bool) (string, bool) {
+	return p.ownedBy(fn, isOwner, liftDepth, map[*ssa.Function]bool{})
+}
+
+func (p *Prog) ownedBy(fn *ssa.Function, isOwner func(name string) bool, depth int, onPath map[*ssa.Function]bool) (string, bool) {
+	top := fn
+	for top.Parent() != nil {
+		top = top.Parent()
+	}
+	if isOwner(FuncName(top)) {
+		return FuncName(top), true
+	}
+	if depth <= 0 || onPath[top] || top.Object() == nil || top.Object().Exported() || !p.InRepo(top) {
+		return "", false
+	}
+	if len(p.FuncValueUses(top)) > 0 || p.isIfaceMethod(top) {
+		return "", false
+	}
+	callers := p.Callers(top)
+	if len(callers) == 0 {
+		return "", false
+	}
+	onPath[top] = true
+	defer delete(onPath, top)
+	owner := ""
+	for _, call := range callers {
+		o, ok := p.ownedBy(call.Parent(), isOwner, depth-1, onPath)
+		if !ok {
+			return "", false
+		}
+		if owner == "" {
+			owner = o
+		}
+	}
+	return owner, true
+}
